@@ -333,7 +333,7 @@ example : printList 1 none (wordOpd ['a'])
     = [' ', 'a', ' ', ' ', ' ', 'A', 'N', 'D', ' ', 'b', ' ', 'O', 'R', ' ', ' ', '-', 'c', ' '] := by decide
 example : PlainWord ['b'] ∧ PlainWord ['c'] := ⟨⟨by simp, by decide, by decide⟩, ⟨by simp, by decide, by decide⟩⟩
 
-/-- **print/parse for the nested fragment** (`WFOpd`: plain words, double-quoted phrases without escapes — any characters but `"` and `\`, optionally followed by a slop `~digits` (below 2^32) or the prefix star —, either of them with a field prefix `name:` (the name a plain word), bracketed ranges `[a TO b]`, `{a TO b}`, `[a TO b}`, `{a TO b]` with bounds of letters and digits (also with a field prefix), `NOT x` of a well-formed operand, and parenthesised operand lists
+/-- **print/parse for the nested fragment** (`WFOpd`: plain words, double-quoted phrases without escapes — any characters but `"` and `\`, optionally followed by a slop `~digits` (below 2^32) or the prefix star —, either of them with a field prefix `name:` (the name a plain word), bracketed ranges `[a TO b]`, `{a TO b}`, `[a TO b}`, `{a TO b]` with bounds of letters and digits (also with a field prefix), sets `IN [a b c]` of plain words with any blanks after `IN`, after `[` and between the elements (also with a field prefix), `NOT x` of a well-formed operand, and parenthesised operand lists
     of well-formed operands, to any depth, each list with `+`/`-` markers, `AND `/`OR ` and any
     layout): the strict parser reads the printed text as the tree the printer's structure denotes —
     at every level the fold (`strictAst`, see `C16_listTree_is_fold`) of the operands' trees —
@@ -390,6 +390,16 @@ example : (fieldRangeOpd ['t'] true false ['a'] ['b']).text = ['t', ':', '[', 'a
     ∧ (fieldRangeOpd ['t'] true false ['a'] ['b']).leaf = .leaf (.range (some ['t']) (.incl ['a']) (.excl ['b']))
     ∧ WFOpd (fieldRangeOpd ['t'] true false ['a'] ['b']) :=
   ⟨by decide, rfl, .fieldRange _ _ _ _ _ ⟨by simp, by decide, by decide⟩ ⟨by simp, by decide⟩ ⟨by simp, by decide⟩⟩
+
+/-- `t:IN  [a  b]` is a well-formed operand: the set of `a` and `b` on field `t` -/
+example : (fieldSetOpd ['t'] 1 0 ['a'] [(1, ['b'])]).text = ['t', ':', 'I', 'N', ' ', ' ', '[', 'a', ' ', ' ', 'b', ']']
+    ∧ (fieldSetOpd ['t'] 1 0 ['a'] [(1, ['b'])]).leaf = .leaf (.set (some ['t']) [['a'], ['b']])
+    ∧ WFOpd (fieldSetOpd ['t'] 1 0 ['a'] [(1, ['b'])]) := by
+  refine ⟨by decide, rfl, .fieldSet _ _ _ _ _ ⟨by simp, by decide, by decide⟩ ⟨⟨by simp, by decide, by decide⟩, ?_⟩⟩
+  intro e he
+  simp only [List.mem_singleton] at he
+  subst he
+  exact ⟨by simp, by decide, by decide⟩
 
 /-- `NOT  t:a` is a well-formed operand, read as the clause `(-t:a)` -/
 example : (notOpd 1 (fieldWordOpd ['t'] ['a'])).text = ['N', 'O', 'T', ' ', ' ', 't', ':', 'a']
